@@ -35,6 +35,7 @@ class RKernel(S.Kernel):
     def __init__(self, behav=None):
         S.Kernel.__init__(self, behav)
         self.spawn_args = {}
+        self.spawn_env = {}
 
     def spawn(self, info):
         self.now += 1
@@ -75,6 +76,16 @@ class ReloadSim(S.Sim):
     def setup(self):
         S.Sim.setup(self)                      # patches, loop, fake pub/stream (with a throw-away arbiter)
         import circus.arbiter as A
+        import circus.process as P
+        k = self.k
+        Base = P.Popen                         # the fake psutil.Popen of sim.py; teardown restores the real one
+
+        class EnvPopen(Base):                  # additionally remembers the environment handed to each worker
+            def __init__(self, args, **kw):
+                Base.__init__(self, args, **kw)
+                env = kw.get("env")
+                k.spawn_env[self.pid] = None if env is None else dict(env)
+        P.Popen = EnvPopen
         self.arb = A.Arbiter.load_from_config(self.path, loop=self.loop)
         self.arb._provided_loop = False
         self.arb.evpub_socket = self.pub
@@ -130,6 +141,8 @@ class ReloadSim(S.Sim):
         return {"watchers": ws, "names_index": sorted(self.arb._watchers_names),
                 "live": live, "zombies": zomb,
                 "spawned": [int(l.split(" ")[2]) for l in log if l.startswith("o spawn ")],
+                "spawn_env": {str(p): _jsonable(self.k.spawn_env.get(p)) for p in live},
+                "spawn_args": {str(p): _jsonable(self.k.spawn_args.get(p)) for p in live},
                 "signalled": sorted(set(int(l.split(" ")[2]) for l in log if l.startswith("o sig "))),
                 "reply": reps[-1] if reps else None,
                 "raised": list(self.raised), "errors": list(self.errors)[-3:], "blocked": bool(self.blocked)}
